@@ -19,11 +19,15 @@
 /* p is the start of a live allocator block of exactly n elements (as a memory-model fact) */
 #define HEAPBLK(p, n) ((p) != 0 && __CPROVER_DYNAMIC_OBJECT (p) && OFF (p) == 0 && __CPROVER_OBJECT_SIZE (p) == ((unsigned long) (n) << ESZ_LOG2))
 
+/* the container holds an allocator block: at run time exactly when capacity () differs from the inline capacity; during constant
+   evaluation (configuration class CONSTEVAL, C08) always - the inline buffer is not usable there and has_allocation () is true */
+#define HASALLOC(s, N)  (CONSTEVAL || CAP (s) != (unsigned long) (N))
+#define OHASALLOC(s, N) (CONSTEVAL || OCAP (s) != (unsigned long) (N))
 /* representation invariant (C02) for a container whose inline capacity is N */
 #define WF_(s, N) \
   (SZ (s) <= CAP (s) && (unsigned long) (N) <= CAP (s) && SZ (s) <= MAXSZ && (CAP (s) <= MAXSZ || CAP (s) == (unsigned long) (N)) \
-   && IMPLIES (CAP (s) == (unsigned long) (N), DATA (s) == STORAGE (s)) \
-   && IMPLIES (CAP (s) != (unsigned long) (N), HEAPBLK (DATA (s), CAP (s)) && !SAMEOBJ (DATA (s), (s))))
+   && IMPLIES (!HASALLOC (s, N), DATA (s) == STORAGE (s)) \
+   && IMPLIES (HASALLOC (s, N), HEAPBLK (DATA (s), CAP (s)) && !SAMEOBJ (DATA (s), (s))))
 #define WF(s)  WF_ (s, CAP_N)
 #define WFM(s) WF_ (s, CAP_M)
 
@@ -36,7 +40,7 @@
 #define CELLS(s) (CELL1 (s, 0) && CELL1 (s, 1) && CELL1 (s, 2))
 
 /* allocation ledger (C04): a heap buffer is a live block of exactly capacity () elements of the container's allocator */
-#define BLOCK_(s, N) IMPLIES (WB == DATA (s) && CAP (s) != (unsigned long) (N), WBL != 0 && WBN == CAP (s) && WBA == AID (s))
+#define BLOCK_(s, N) IMPLIES (WB == DATA (s) && HASALLOC (s, N), WBL != 0 && WBN == CAP (s) && WBA == AID (s))
 #define BLOCK(s)  BLOCK_ (s, CAP_N)
 #define BLOCKM(s) BLOCK_ (s, CAP_M)
 
@@ -109,7 +113,7 @@
 #define EXACT(s)  (EXACT1_ (s, 0, CAP_N) && EXACT1_ (s, 1, CAP_N) && EXACT1_ (s, 2, CAP_N))
 /* exactness of the allocation ledger (C04/C06): the watched block is live iff it is the container's heap buffer,
    or it was live before and was not the container's buffer */
-#define EXACTB_(s, N) IFF (WBL, (WB == DATA (s) && CAP (s) != (unsigned long) (N)) || (__CPROVER_old (WBL) != 0 && !(WB == ODATA (s) && OCAP (s) != (unsigned long) (N))))
+#define EXACTB_(s, N) IFF (WBL, (WB == DATA (s) && HASALLOC (s, N)) || (__CPROVER_old (WBL) != 0 && !(WB == ODATA (s) && OHASALLOC (s, N))))
 #define EXACTB(s)  EXACTB_ (s, CAP_N)
 #define EXACTBM(s) EXACTB_ (s, CAP_M)
 /* cells that belong to neither the old nor the new buffer keep their state */
@@ -125,7 +129,8 @@
 /* growth (C14): a changed capacity is at least the needed size and at least 1.5x the old one, saturating at max_size () */
 #define GROWTH(s, needed) IMPLIES (CAP (s) != OCAP (s), CAP (s) >= (needed) && CAP (s) > OCAP (s) && (CAP (s) - OCAP (s) >= (OCAP (s) >> 1) || CAP (s) == MAXSZ))
 /* no reallocation (C10) */
-#define NO_REALLOC(s) (DATA (s) == ODATA (s) && CAP (s) == OCAP (s) && alloc_calls == __CPROVER_old (alloc_calls) && dealloc_calls == __CPROVER_old (dealloc_calls))
+/* (during constant evaluation the aliasing-safe insert paths use a one-element heap temporary: the buffer is still not reallocated) */
+#define NO_REALLOC(s) (DATA (s) == ODATA (s) && CAP (s) == OCAP (s) && (CONSTEVAL || (alloc_calls == __CPROVER_old (alloc_calls) && dealloc_calls == __CPROVER_old (dealloc_calls))))
 
 /* ---- index-based cell predicates (offsets only: no pointer arithmetic on a buffer that may have been given back) ---- */
 #define BIDX(p, base) (OFF (p) - OFF (base))
@@ -150,8 +155,8 @@
 #define EXACT2_1(a, b, i) IFF (LIVE (i), IN_RANGE (WP[i], DATA (a), SZ (a)) || IN_RANGE (WP[i], DATA (b), SZ (b)) \
    || (__CPROVER_old (WS[i]) != S_RAW && !IN_RANGE (WP[i], ODATA (a), OSZ (a)) && !IN_RANGE (WP[i], ODATA (b), OSZ (b))))
 #define EXACT2(a, b) (EXACT2_1 (a, b, 0) && EXACT2_1 (a, b, 1) && EXACT2_1 (a, b, 2))
-#define EXACTB2_(a, Na, b, Nb) IFF (WBL, (WB == DATA (a) && CAP (a) != (unsigned long) (Na)) || (WB == DATA (b) && CAP (b) != (unsigned long) (Nb)) \
-   || (__CPROVER_old (WBL) != 0 && !(WB == ODATA (a) && OCAP (a) != (unsigned long) (Na)) && !(WB == ODATA (b) && OCAP (b) != (unsigned long) (Nb))))
+#define EXACTB2_(a, Na, b, Nb) IFF (WBL, (WB == DATA (a) && HASALLOC (a, Na)) || (WB == DATA (b) && HASALLOC (b, Nb)) \
+   || (__CPROVER_old (WBL) != 0 && !(WB == ODATA (a) && OHASALLOC (a, Na)) && !(WB == ODATA (b) && OHASALLOC (b, Nb))))
 #define EXACTB2(a, b) EXACTB2_ (a, CAP_N, b, CAP_N)
 #define OUTSIDE2_1(a, b, i) IMPLIES (!IN_RANGE (WP[i], DATA (a), CAP (a)) && !IN_RANGE (WP[i], ODATA (a), OCAP (a)) && !IN_RANGE (WP[i], DATA (b), CAP (b)) && !IN_RANGE (WP[i], ODATA (b), OCAP (b)) \
    && WP[i] == __CPROVER_old (WP[i]), SAME_CELL (i))
@@ -160,17 +165,17 @@
 #define RAW_OBJ(s) (IMPLIES (SAMEOBJ (WP[0], (s)), RAW (0)) && IMPLIES (SAMEOBJ (WP[1], (s)), RAW (1)) && IMPLIES (SAMEOBJ (WP[2], (s)), RAW (2)))
 #define EXACT_CTOR1(s, i) IFF (LIVE (i), IN_RANGE (WP[i], DATA (s), SZ (s)) || __CPROVER_old (WS[i]) != S_RAW)
 #define EXACT_CTOR(s) (EXACT_CTOR1 (s, 0) && EXACT_CTOR1 (s, 1) && EXACT_CTOR1 (s, 2))
-#define EXACTB_CTOR_(s, N) IFF (WBL, (WB == DATA (s) && CAP (s) != (unsigned long) (N)) || __CPROVER_old (WBL) != 0)
+#define EXACTB_CTOR_(s, N) IFF (WBL, (WB == DATA (s) && HASALLOC (s, N)) || __CPROVER_old (WBL) != 0)
 #define EXACTB_CTOR(s) EXACTB_CTOR_ (s, CAP_N)
 /* construction from another container o (which may be emptied) */
 #define EXACT_CTOR2_1(s, o, i) IFF (LIVE (i), IN_RANGE (WP[i], DATA (s), SZ (s)) || IN_RANGE (WP[i], DATA (o), SZ (o)) || (__CPROVER_old (WS[i]) != S_RAW && !IN_RANGE (WP[i], ODATA (o), OSZ (o))))
 #define EXACT_CTOR2(s, o) (EXACT_CTOR2_1 (s, o, 0) && EXACT_CTOR2_1 (s, o, 1) && EXACT_CTOR2_1 (s, o, 2))
-#define EXACTB_CTOR2_(s, N, o, M) IFF (WBL, (WB == DATA (s) && CAP (s) != (unsigned long) (N)) || (WB == DATA (o) && CAP (o) != (unsigned long) (M)) || (__CPROVER_old (WBL) != 0 && !(WB == ODATA (o) && OCAP (o) != (unsigned long) (M))))
+#define EXACTB_CTOR2_(s, N, o, M) IFF (WBL, (WB == DATA (s) && HASALLOC (s, N)) || (WB == DATA (o) && HASALLOC (o, M)) || (__CPROVER_old (WBL) != 0 && !(WB == ODATA (o) && OHASALLOC (o, M))))
 #define EXACTB_CTOR2(s, o) EXACTB_CTOR2_ (s, CAP_N, o, CAP_N)
 /* nothing observable happened to the ghost state (failed construction) */
 #define GHOST_SAME (SAME_CELL (0) && SAME_CELL (1) && SAME_CELL (2) && WBL == __CPROVER_old (WBL))
 /* a default-state (empty, inlined) container */
-#define IS_DEFAULT_(s, N) (SZ (s) == 0 && CAP (s) == (unsigned long) (N) && DATA (s) == STORAGE (s))
+#define IS_DEFAULT_(s, N) (SZ (s) == 0 && CAP (s) == (unsigned long) (N) && (CONSTEVAL || DATA (s) == STORAGE (s)))
 #define IS_DEFAULT(s) IS_DEFAULT_ (s, CAP_N)
 
 #define RAW_IDX(base, lo, hi)  (IMPLIES (IN_IDX (0, base, lo, hi), RAW (0)) && IMPLIES (IN_IDX (1, base, lo, hi), RAW (1)) && IMPLIES (IN_IDX (2, base, lo, hi), RAW (2)))
